@@ -186,6 +186,14 @@ func C01Configs(thorough bool) []*world.Config {
 	add(ChainSeeded(M, 3))
 	add(Seeded16(B, 2))
 	add(LateInsertSeeded(B, 6))
+	// several tree values of one version: clones and loads of a kept root through the shared cache
+	add(world.WithTwoSlots(world.UintCfg(2, u(1, 4), 1, B, "none"), 5))
+	add(world.WithTwoSlots(world.UintCfg(2, []interface{}{uint(1), uint(2), uint(4)}, 2, M, "big"), 5))
+	if thorough {
+		add(SharedCacheSeeded(B, 5))
+	} else {
+		add(SharedCacheSeeded(B, 4))
+	}
 	im := world.IntCfg(16, []int{1, 2, 3, 16, 32}, []interface{}{"a", "b"}, "", B, "none")
 	im.InMemory = true
 	im.Name = "inmemory/" + im.Name
@@ -220,9 +228,12 @@ func depth(c *world.Config, d int) *world.Config {
 // C01 runs the check.
 func C01(run *report.Run) {
 	for _, cfg := range C01Configs(run.Thorough()) {
-		e := &explore.Explorer{Cfg: cfg, Ops: SingleOps(cfg, true), Mon: &c01Mon{cfg: cfg}, Reduced: true, MaxDepth: cfg.MaxDepth}
+		e := &explore.Explorer{Cfg: cfg, Ops: withKeptRoot(cfg, SingleOps(cfg, true)), Mon: &c01Mon{cfg: cfg}, Reduced: true, MaxDepth: cfg.MaxDepth}
 		if cfg.Exact || os.Getenv("VERIF_EXACT") != "" {
 			e.Reduced = false
+		}
+		if cfg.TwoSlots {
+			e.Ops = c02Ops(cfg, 2, true)
 		}
 		if f := os.Getenv("VERIF_ONLY"); f != "" && !strings.Contains(cfg.Name, f) {
 			continue
@@ -233,7 +244,7 @@ func C01(run *report.Run) {
 		} else if run.Thorough() {
 			e.MaxStates = 400000
 		} else {
-			e.MaxStates = 60000
+			e.MaxStates = 300000
 		}
 		runExplorer(run, "C01", e)
 	}
@@ -242,6 +253,7 @@ func C01(run *report.Run) {
 		bigC01(run, acc)
 		acc.flush(run)
 		swallowedFaultPass(run, "C01", "Insert", "Delete", "Get", "Iter")
+		fanOut(run, "C01", multiTreePlans(run.Thorough()), func(c *world.Config) explore.Monitor { return &c01Mon{cfg: c} })
 	}
 	run.Rule = "explicit-state BFS to closure over {insert,delete} x keys x values, MakeRoot, MakeRoot+LoadMast (and Get/Iter when a cache is attached); every transition executes the real implementation; states merged on the exact heap dump"
 	run.Assumptions = append(run.Assumptions, "finite key/value universes per configuration", "state merging is sound because equal dumps are isomorphic heaps and mast is deterministic (DESIGN 3.3)")
